@@ -9,7 +9,9 @@
    failing result carries the error [t, u] = (index of the token whose position the error reports - 0 when no position is
    known -, is it an UnexpectedTokenError); every context carries de / dd, transformed by MaybeUpdate / StopUpd / Accept
    exactly as in context.go; `eout` is the error the parse finally reports.  The properties do not say WHICH located
-   error a failing parse must report, so a disagreement here is model drift, not a violation (ErrorConforms).        *)
+   error a failing parse must report, so a disagreement here is model drift, not a violation (ErrorConforms).
+   PARTIAL AST: what a failing parse hands back next to its error (the captures applied before the failure) is computed at
+   Terminate from the same write log (PART lines); compared with the real partial AST, again as drift only.          *)
 EXTENDS Meaning, Json
 
 CONSTANT CasesFile
@@ -229,7 +231,8 @@ ProdRet == /\ Running /\ Top.ph = "wait" /\ Top.n.op = "prod" /\ ret.k # "none"
           /\ Emit(IF ret.k = "no" THEN <<>> ELSE EvP(IF DevApplyAll THEN Len(C.pend) ELSE Len(C.pend) - Top.a))
            /\ LET id == Top.i
                   own == SubSeq(C.pend, Top.a + 1, Len(C.pend))
-                  hdr == [new |-> id, p |-> Top.n.p, start |-> Top.b, pos |-> NxtFrom(Env, Top.b), end |-> C.st.raw]
+                  \* (a failing body: Pos was injected on entry, EndPos and Tokens are not - strct.Parse returns before injecting them)
+                  hdr == [new |-> id, p |-> Top.n.p, start |-> Top.b, pos |-> NxtFrom(Env, Top.b), end |-> C.st.raw, failed |-> ret.k = "err"]
                   ap == ApplySeq(G, IF DevApplyAll THEN C.pend ELSE own, 1, log)
                   rest == IF DevApplyAll THEN (IF ap.ok THEN <<>> ELSE C.pend) ELSE SubSeq(C.pend, 1, Top.a)
                   applied == IF DevApplyAll THEN C.pend ELSE own
@@ -279,7 +282,15 @@ Terminate == /\ ~done /\ (ctl = <<>> \/ ret.k = "bug")
                             [] ret.k = "no" -> Deepest(ctxs[1], Unexpected(ctxs[1]))
                             [] ret.k = "ok" /\ ~G.trailing /\ ~IsEOF(Env, NxtFrom(Env, st.raw)) -> Deepest(ctxs[1], Unexpected(ctxs[1]))
                             [] OTHER -> NoErr
+                    \* PARTIAL AST (parser.go parseInto: whatever the root node handed back is stored before the error is
+                    \* returned): the root value with every capture applied so far on a node error or on trailing input, the
+                    \* untouched zero value when the root did not match at all.  No property fixes its content: drift only.
+                    po == CASE o # "err" -> "-"
+                            [] ret.k = "no" -> "zero"
+                            [] Len(ret.vals) >= 1 /\ "node" \in DOMAIN ret.vals[1] -> CanonInst(Env, log, ret.vals[1].node)
+                            [] OTHER -> "?"
                 IN /\ out' = o /\ eout' = (IF o = "err" THEN eo ELSE NoErr)
+                   /\ (o = "err" => PrintT("PART|" \o G.id \o "|" \o ToString(KK) \o "|" \o ToString(ii - 1) \o "|" \o po))
                    /\ (o = "err" => PrintT("ERR|" \o G.id \o "|" \o ToString(KK) \o "|" \o ToString(ii - 1) \o "|" \o ErrStr(eo)))
              /\ done' = TRUE /\ UNCHANGED <<gi, ii, ki, ctl, ctxs, log, nid, ret, evs, trc>>
              /\ PrintT("EVS|" \o G.id \o "|" \o ToString(KK) \o "|" \o ToString(ii - 1) \o "|" \o JoinEvs(evs, 1))
